@@ -45,8 +45,26 @@ def apiAct : List String → Option Act
   | ["reset", t, c] => do pure (.reset { text := (← decStr t), cur := (← decNat c) })
   | _ => none
 
+def parseEKey : List String → Option EKey
+  | ["char", c] => do pure (.char (Char.ofNat (← decNat c)))
+  | ["c-h"] => some .backspace
+  | ["delete"] => some .delete
+  | ["left"] => some .left
+  | ["right"] => some .right
+  | ["home"] => some .home
+  | ["end"] => some .eol
+  | ["c-k"] => some .killLine
+  | ["c-_"] => some .undo
+  | ["c-x_c-u"] => some .undoXU
+  | ["f12"] => some .redo
+  | _ => none
+
 def stepLine (k : KSt) (toks : List String) : KSt × String :=
   match toks with
+  | "ekey" :: rest =>
+    match parseEKey rest with
+    | some key => let k' := ekey k key; (k', encK k')
+    | none => (k, "bad-op")
   | ["init", t, c] =>
     match decStr t, decNat c with
     | some t, some c => let k' := kInit { text := t, cur := c }; (k', encK k')
